@@ -77,10 +77,21 @@ func (c *Ctx) Quick() bool { return c.Tier != "thorough" }
 
 // N picks the quick or thorough size of a workload.
 func (c *Ctx) N(quick, thorough int) int {
+	n := thorough
 	if c.Quick() {
-		return quick
+		n = quick
 	}
-	return thorough
+	// VERIF_SCALE shrinks workloads while developing on a loaded machine (never set by the
+	// registered commands).
+	if s := os.Getenv("VERIF_SCALE"); s != "" {
+		if f, err := strconv.ParseFloat(s, 64); err == nil && f > 0 {
+			n = int(float64(n) * f)
+			if n < 1 {
+				n = 1
+			}
+		}
+	}
+	return n
 }
 
 // Rand returns a PRNG that is a pure function of (seed, property, stream).
